@@ -10,7 +10,7 @@
 long atol(const char *nptr) {
 	int c;
 	int sign;
-	long total;
+	unsigned long total;	/* unsigned: "-9223372036854775808" must not overflow */
 	const unsigned char *p = (const unsigned char *) nptr;
 
 	while (isspace(*p))
@@ -28,9 +28,9 @@ long atol(const char *nptr) {
 	}
 
 	if (sign == '-') {
-		return -total;
+		return (long) (0ul - total);
 	} else {
-		return total;
+		return (long) total;
 	}
 }
 
